@@ -263,6 +263,7 @@ func (c *concCtx) scenarioClose(bufsz uint, consumer string, pending string) {
 		if !closed { // Close was called and never completed: neither channel closes, no consumer loop ends
 			evClosed := evDone.Load()
 			erClosed := erDone.Load()
+			c.report("C13", "C13:close-never-completed", name+": Close did not complete: the inotify descriptor, the kernel watches and the reader goroutine are never released", map[string]interface{}{})
 			if !evClosed || !erClosed {
 				c.report("C06", "C06:channels-never-closed", fmt.Sprintf("%s: Close did not complete; Events closed=%v Errors closed=%v as seen by the consumer", name, evClosed, erClosed), map[string]interface{}{})
 			}
@@ -892,6 +893,14 @@ func runConc(r *rec, g *rng, tier, what, out string, extra map[string]interface{
 		c.scenarioLeak(n)
 		c.scenarioNewFails()
 		c.raceClose(r, "C13", thorough)
+		// Close with an error / an overflow pending and nobody reading Errors: everything is released all the same
+		for _, p := range []string{"error", "overflow"} {
+			fd0, g0 := inotifyFds(), fsnotifyGoroutines()
+			c.scenarioClose(0, "onlyEvents", p)
+			if !settle(func() bool { return inotifyFds() <= fd0 && fsnotifyGoroutines() <= g0 }) {
+				c.report("C13", "C13:leak-after-close-with-pending-"+p, fmt.Sprintf("Close with a pending %s: inotify descriptors %d -> %d, reader goroutines %d -> %d", p, fd0, inotifyFds(), g0, fsnotifyGoroutines()), map[string]interface{}{})
+			}
+		}
 	}
 	if want("C07") {
 		n := 150
